@@ -175,8 +175,8 @@ check("C16", "rocq-membership", "proof",
       "class a witness refutes it (D9, known finding, printed as KNOWN-FINDING). Model tied to watch_membership_changes, the watch channel and "
       "WatchStream by differential execution: bounded-exhaustive over schedules, then random (hx-membership).",
       "Trusted: Coq kernel, hand-written Membership.v, ExtrOcamlBasic extraction with a vm_compute cross-check, the OCaml driver, the Rust "
-      "executor (schedule control by yielding on a current-thread runtime). The consumers' apply loop is re-implemented in the executor and pinned "
-      "by source patterns. D9 (late subscriber / coalesced deltas on the watch channel) is a known finding, not repaired.")
+      "executor (schedule control by yielding on a current-thread runtime). The consumers' apply loop is re-implemented in the executor for the subscriber schedules and pinned (with its left-before-joined order); the real task distributor is run on every published change by the `dist` cases and the addresses its batch reaches are compared. "
+      "D9 (late subscriber / coalesced deltas on the watch channel) is a known finding, not repaired.")
 check("C17", "rocq-storage", "translation_validation",
       "Differential of MemStore, SQLite (memory and file) and LMDB against a proved-about reference model. After every call of generated "
       "contract-allowed call sequences all observers (get, multi_get, iter_metadata, keyspace list) are compared with the extracted Coq reference "
